@@ -179,7 +179,12 @@ def opQuery (payload : String) : String :=
       let r := run q A B { refuseFrom := refuse }
       -- cross-check of the specification layer (what the theorems state) on this very case
       let specOk : Json :=
-        if q.isUpdate || q.isAgg || refuse.isSome then .null
+        if refuse.isSome || q.isAgg then .null
+        else if q.isUpdate then
+          (if let some e := (q.join.bind (fun js => joinBError js.rhs B)) then .bool (r.error == some e)
+           else match updateSpec q B A 0 0 with
+            | .ok rows => .bool (r.error.isNone && r.rows == rows)
+            | .error e => .bool (r.error == some e))
         else if let some e := (q.join.bind (fun js => joinBError js.rhs B)) then .bool (r.error == some e)
         else match emissions q B A 0 with
           | .ok es => .bool (r.error.isNone && r.rows == selectSpec q es)
